@@ -131,7 +131,7 @@ TPost ==
          nsec == Sum([k \in DOMAIN recs |-> Len(recs[k].secs) + recs[k].nfalse])
      IN
      /\ Mark((IF got = DOMAIN pres /\ Cardinality(got) = Len(recs) THEN {} ELSE {"C02.ActiveComplete@Post"})
-             \cup UNION {PostSlotClauses(pres[i], bySlot(i), Twom, zero) : i \in got \cap DOMAIN pres}
+             \cup UNION {PostSlotClauses(pres[i], bySlot(i), Twom, zero, cfg.msc /\ cfg.field) : i \in got \cap DOMAIN pres}
              \cup (IF Rec.stack.size <= Rec.stack.cap /\ nsec <= Rec.stack.size
                    THEN {} ELSE {"C16.StackWithinCapacity"}))
      /\ posts' = [i \in got |-> bySlot(i)]
